@@ -491,7 +491,7 @@ func TestC15R(t *testing.T) {
 }
 
 func TestC16R(t *testing.T) {
-	o := rOpts{Focus: "C16", MaxOps: 12, Kinds: []string{"round", "round", "plan", "plan", "trigger", "sync", "release", "sleep", "cancel", "callcancelled", "elect"}}
+	o := rOpts{Focus: "C16", MaxOps: 12, Kinds: []string{"round", "round", "plan", "plan", "trigger", "sync", "release", "sleep", "cancel", "callcancelled", "elect", "flood"}}
 	rProperty(t, o, checkC16, func(r *rt.Run) bool { return len(r.H.Gates.Snapshot()) > 0 && gateWasClosedAtCancel(r) }, func(t *rapid.T, c *rt.Case) {
 		if rapid.Bool().Draw(t, "realtimer") {
 			c.Cfg.RealTimer = true
